@@ -136,6 +136,11 @@ func (c *client) receiveID(ctx context.Context) (errc chan error) {
 			utils.ReportError(ctx, errc, errors.Errorf("MarshalBinary: %w", err))
 			return
 		}
+		if len(dhBytes) < 44 {
+			// the point at infinity (remote key is the identity) marshals to a single byte
+			utils.ReportError(ctx, errc, errors.New("remote public key is the point at infinity"))
+			return
+		}
 		c.dhKey = dhBytes[0:32]
 		c.dhNonce = dhBytes[32:44]
 
